@@ -110,3 +110,23 @@ Proof.
   - intros d sq H. vm_compute in H. destruct H as [H|[H|[]]]; inversion H; reflexivity.
   - intros d sq H. vm_compute in H. destruct H as [H|[H|[]]]; inversion H; reflexivity.
 Qed.
+
+(* ---- enumerate-all, the learning half ("every newly learned service type ..."): at every position of a response, and
+   whatever any cache holds (the classification of a record does not read the cache), an enumerate-all browser that meets
+   a PTR record named "_services._dns-sd._udp.local." caches it, puts its target - the service type - into the batch
+   that C19_enumerate_all_batch asks about, and (re)starts the batch timer.  The decision [browser_ptr_browse] is
+   regenerated from Browser::onMessageReceived on every run. ---- *)
+Theorem C19_new_type_is_batched now j r rs names nulls w b :
+  nth_error (w_browsers w) j = Some b -> is_any b = true -> r_type r = T_PTR -> r_name r = Some browse_type ->
+  let b' := mkBrowser (b_type b) (b_cache b) (b_services b) (b_hostnames b) (set_insert (bs_data (r_target r)) (b_ptr_targets b)) in
+  let w1 := mkWorld (w_caches w) (replace_nth j b' (w_browsers w)) (w_jitter w) in
+  browser_cache_records now j (r :: rs) names nulls w =
+    (let '(w2, e2) := world_cache_add now (b_cache b) r w1 in
+     let '(w3, nm, nl, e3) := browser_cache_records now j rs names nulls w2 in
+     (w3, nm, nl, [EStart (T_SERVICE_OF j) service_batch_ms] ++ e2 ++ e3)).
+Proof. exact (new_type_is_batched now j r rs names nulls w b). Qed.
+Print Assumptions C19_new_type_is_batched.
+
+Theorem C19_batched_type_is_in_the_batch x l : set_mem x (set_insert x l) = true.
+Proof. exact (set_insert_mem x l). Qed.
+Print Assumptions C19_batched_type_is_in_the_batch.
